@@ -119,7 +119,7 @@ def nearest_float(x: Fraction) -> float:
 
 
 def gen_conv(tier, rnd):
-    fixed = [1.0, 3.7e-7, 2.5e9, -4103.25, 0.0, 7.3e-120, -9.99e140, 14268.19]
+    fixed = [1.0, 3.7e-7, 2.5e9, -4103.25, 0.0, 7.3e-120, -9.99e140, 14268.19, 2, 1000, -7, 0]     # (ints are legal values too)
     evs, i = [], 0
     for kind in spectab.kinds():
         us = spectab.units_of(kind)
@@ -144,7 +144,7 @@ def gen_conv(tier, rnd):
 def gen_cmp(tier, rnd):
     evs, i = [], 0
     kinds = spectab.kinds()
-    base_mags = [1.0, 1e-13, 14268.19, 3.3e11, 2.5e-7]
+    base_mags = [1.0, 1e-13, 14268.19, 3.3e11, 2.5e-7, 3]
     for k1 in kinds:
         for k2 in kinds:
             fam1 = spectab.tables()['table'][k1]['super']
